@@ -184,6 +184,22 @@ pub fn run(tier: Tier) -> Report {
             .collect();
         fails.extend(hf);
     }
+    // many procedures (more than any small table): 40, with and without doc comments
+    {
+        let decls: Vec<RDecl> = (0..40)
+            .map(|k| RDecl::Proc { name: if k == 39 { "main".into() } else { format!("p{}", k) }, params: vec![], vars: vec![], body: if k % 3 == 0 { vec![] } else { vec![RStmt::Empty; k % 3] } })
+            .collect();
+        let prog = RProgram { decls };
+        let pr = print_program(&prog);
+        let starts: Vec<usize> = pr.decl_spans.iter().map(|s| s.0).collect();
+        for (layout, gaps) in [(Layout::Pretty, vec![]), (Layout::Pretty, starts.clone()), (Layout::Lines, starts), (Layout::Minimal, vec![]), (Layout::Crlf, vec![]), (Layout::Cr, vec![])] {
+            let r = render(&pr.toks, layout, &gaps, &comment_text);
+            evals.fetch_add(1, Ordering::Relaxed);
+            if let Err((kind, detail)) = eval_program(&prog, &pr, &r) {
+                fails.push(Failure { key: format!("fold:{}:{:?}:many-procedures", kind, layout), case: json!({"text": r.text, "expected": expected_folds(&prog, &pr, &r)}), detail });
+            }
+        }
+    }
     let n_valid = evals.load(Ordering::Relaxed);
     // well-formedness on arbitrary documents
     let toks = Strings::new(SIGMA_TOK, tier.pick(3, 4));
